@@ -278,6 +278,18 @@ def do_builder_case(case, res: Result, lines, impl, accepted):
     if pred_ids(p.preconditions) != ','.join(map(str, exp_pre)) or pred_ids(p.haltconditions) != ','.join(map(str, exp_halt)):
         bad('builder-order', f"pre/haltconditions P[{pred_ids(p.preconditions)}] H[{pred_ids(p.haltconditions)}]; "
                              f"calls in order give P{exp_pre} H{exp_halt}")
+    # the builder is used on after generate() (a common prefix generated, then extended into a longer variant): the pattern
+    # already generated is the pattern of the calls made BEFORE generate()
+    was = ([show_block(x) for x in p.blocks], pred_ids(p.preconditions), pred_ids(p.haltconditions))
+    try:
+        b.followed_by(BoboPredicateCall(Fn(97)), loop=True).not_followed_by(BoboPredicateCall(Fn(96)))
+        b.precondition(BoboPredicateCall(Fn(95))).haltcondition(BoboPredicateCall(Fn(94)))
+    except Exception:   # noqa  (a builder may refuse further use; the generated pattern is judged either way)
+        pass
+    now_ = ([show_block(x) for x in p.blocks], pred_ids(p.preconditions), pred_ids(p.haltconditions))
+    if now_ != was:
+        bad('builder-alias', f"calls on the builder AFTER generate() changed the generated pattern: blocks {was[0]} -> {now_[0]}, "
+                             f"P[{was[1]}] -> P[{now_[1]}], H[{was[2]}] -> H[{now_[2]}]")
     # identity / type check kept: a predicate OBJECT handed to precondition() / haltcondition() is the one the pattern holds,
     # and a type-checked predicate added through any builder method still refuses data of another type without
     # calling the user's function
